@@ -25,6 +25,23 @@ From NIC Require Import Base.SMap Sync.Model Sync.Proofs.
 Import ListNotations.
 Open Scope string_scope.
 
+(* The lister reflects the cluster.  In production the synchronization functions read the informer
+   cache and write to the API server; sync_cert2 / sync_dns2 (cache, cluster) model exactly that, with the
+   API server answering on the cluster's own content.  Every theorem below speaks about sync_cert /
+   sync_dns / run_cert / run_dns, which are the two-store functions under the hypothesis made explicit
+   here: at the start of every synchronization the cache equals the cluster (the watch has delivered
+   every successful write and nothing else has touched the cache).  The harness establishes the
+   hypothesis (real indexer-backed listers, watch delivery per successful write only), checks after every
+   synchronization that no cache object was written in place, and evaluates the model with the cache it
+   really observed whenever the code under test has broken the equation. *)
+Theorem C20_lister_reflects_cluster :
+  (forall cs ord v fs st, sync_cert2 cs ord v fs st st = sync_cert cs ord v fs st) /\
+  (forall v fs st, sync_dns2 v fs st st = sync_dns v fs st) /\
+  (forall cs h st, run_cert2 cs h (st, st) = (run_cert cs h st, run_cert cs h st)) /\
+  (forall h st, run_dns2 h (st, st) = (run_dns h st, run_dns h st)).
+Proof. exact lister_reflects_cluster. Qed.
+Print Assumptions C20_lister_reflects_cluster.
+
 (* Objects that are not controlled by the synchronizing VirtualServer are never updated or deleted:
    for every history, every initial cluster (any same-named objects with no owner or a foreign
    owner), every fault sequence and every lister order, (1) each action of each synchronization is a
